@@ -82,6 +82,10 @@ var c13Cases = []c13Case{
 	{"type T1 implements I { x: Int a(p: Int): Int }", 0, "I"},
 	{"type T1 implements I { x: Int a(p: Int, q: Int!): String }", 0, "I"},
 	{"type T1 implements I { x: Int a(p: String): String }", 0, "I"},
+	{"type T1 implements I { x: Int a(p: Int!): String }", 0, "I"},
+	{"interface K { k(l: [Int]): Int } type T1 implements K { k(l: [Int!]): Int }", 0, "K"},
+	{"interface K { k(l: [Int]): Int } type T1 implements K { k(l: [Int]!): Int }", 0, "K"},
+	{"interface K { k(l: [Int!]): Int } type T1 implements K { k(l: [Int]): Int }", 0, "K"},
 	{"type T1 implements I { x: Int a: String }", 0, "I"},
 	{"type T1 implements I { x: String a(p: Int): String }", 0, "I"},
 	{"type T1 implements Obj { x: Int }", 0, "T1"},
